@@ -573,23 +573,32 @@ func (p *parser) endAmbiguity() {
 }
 
 type parserProgress struct {
-	offset int
+	offset    int
+	endOffset int
 }
 
 func (p *parser) newProgress() parserProgress {
 	return parserProgress{
 		// -1, because the first call of checkProgress should succeed
-		offset: p.current.StartPos.Offset - 1,
+		offset:    p.current.StartPos.Offset - 1,
+		endOffset: p.current.EndPos.Offset,
 	}
 }
 
 // checkProgress checks that the parser has made progress since it was called last with this parserProgress.
 func (p *parser) checkProgress(progress *parserProgress) bool {
 	parserOffset := p.current.StartPos.Offset
-	if parserOffset == progress.offset {
+	// NOTE: also compare the end offset: an empty token (e.g. the empty string
+	// between two adjacent string template interpolations, or before the end of the program)
+	// starts at the same offset as the token that follows it
+	parserEndOffset := p.current.EndPos.Offset
+	if parserOffset == progress.offset &&
+		parserEndOffset == progress.endOffset {
+
 		panic(errors.NewUnexpectedError("parser did not make progress"))
 	}
 	progress.offset = parserOffset
+	progress.endOffset = parserEndOffset
 	return true
 }
 
